@@ -168,6 +168,53 @@ Section CellProofs.
     induction s as [|a s IH]; intros t0; [reflexivity|].
     destruct a as [[t|]|r|r q c|r k]; cbn [filter is_read negb TableSwap.current]; apply IH.
   Qed.
+  (* ---- writers as sources: which table a lookup can see ---- *)
+  Lemma in_sets_of o (s : list action) : In (ASet o) s -> In o (sets_of T Q C s).
+  Proof.
+    unfold TableSwap.sets_of. intros H. apply in_flat_map. exists (ASet o). split; [exact H|now left].
+  Qed.
+
+  (** lookup_from_emitted: let the SetTable calls of a schedule be exactly the sequence [em] some
+      writer emits (the update loop for a history, the custom backend for its polls), interleaved in
+      any way with any readers.  Every lookup is answered by the start table or by ONE table of [em]. *)
+  Theorem lookup_from_emitted t0 em p1 p2 r q c rest :
+    sets_of T Q C (p1 ++ ALoad r :: p2 ++ ALookup r q c :: rest) = em ->
+    no_load r p2 = true ->
+    exists Tb, (Tb = t0 \/ In (Some Tb) em)
+      /\ nth_error (run_cell t0 (no_locals T) (p1 ++ ALoad r :: p2 ++ ALookup r q c :: rest))
+                   (count_lookups (p1 ++ ALoad r :: p2))
+         = Some (r, q, c, Some (look Tb q c)).
+  Proof.
+    intros Hem Hn. exists (current t0 p1). split; [|now apply lookup_single_snapshot].
+    destruct (current_installed t0 p1) as [H|H]; [now left|right].
+    rewrite <- Hem. apply in_sets_of. apply in_or_app. now left.
+  Qed.
+
+  Lemma current_after_set t0 pa Tn pb : no_set_some T Q C pb = true ->
+    current t0 (pa ++ ASet (Some Tn) :: pb) = Tn.
+  Proof.
+    intros Hpb. revert t0. induction pa as [|a pa IH]; intros t0.
+    - cbn [app TableSwap.current]. clear t0. revert Hpb. generalize Tn as t.
+      induction pb as [|b pb IHb]; intros t Hpb; [reflexivity|].
+      unfold TableSwap.no_set_some, TableSwap.sets_of in Hpb. cbn [flat_map] in Hpb.
+      destruct b as [[tb|]|r|r q c|r k]; cbn [app forallb] in Hpb; try discriminate;
+        cbn [TableSwap.current]; apply IHb; exact Hpb.
+    - cbn [app TableSwap.current]. destruct a as [[t|]|r|r q c|r k]; apply IH.
+  Qed.
+
+  (** previous or new, literally: take any SetTable(Tn) of any schedule and look at the lookups up
+      to the next successful SetTable.  A lookup whose reader called GetTable AFTER it is answered by Tn
+      (this theorem); one whose reader called GetTable BEFORE it is answered by the table of that
+      earlier moment ([lookup_single_snapshot] with the prefix), which was installed before Tn. *)
+  Theorem lookup_sees_new_after_set t0 pa Tn pb1 pb2 r q c rest :
+    no_set_some T Q C pb1 = true -> no_load r pb2 = true ->
+    nth_error (run_cell t0 (no_locals T) ((pa ++ ASet (Some Tn) :: pb1) ++ ALoad r :: pb2 ++ ALookup r q c :: rest))
+              (count_lookups ((pa ++ ASet (Some Tn) :: pb1) ++ ALoad r :: pb2))
+    = Some (r, q, c, Some (look Tn q c)).
+  Proof.
+    intros Hs Hn. rewrite (lookup_single_snapshot t0 _ pb2 r q c rest Hn).
+    now rewrite (current_after_set t0 pa Tn pb1 Hs).
+  Qed.
 End CellProofs.
 
 (* non-vacuity: two readers, a writer alternating two tables and storing nil in between *)
@@ -757,15 +804,118 @@ Section LoopProofs.
   Proof. exact (Proofs.Watch.run_expected btable bo t0 h). Qed.
 End LoopProofs.
 
-(** the update loop over the composed builder never reaches [Crashed]: C01's loop, for every history *)
-Theorem watch_never_crashes pweight canon glob_ok order : perm_order order ->
-  (forall text ds, scan_parse pweight text = Ok ds -> Forall route_ok (reached canon glob_ok [] ds)) ->
-  forall h w,
-    wrun (full_build pweight canon glob_ok (ring_faithful order)) (Running w) h
-    = Running (Watch.run btable (build_opt (full_build pweight canon glob_ok (ring_faithful order))) w h).
+(* ParseAliases never panics either (the same line parser) *)
+Lemma alias_lines_np pweight ls : alias_lines pweight ls <> Panic.
 Proof.
-  intros Hord Hsz h w. apply wrun_no_crash. intros c _.
-  exact (proj1 (full_build_total pweight canon glob_ok order Hord c (Hsz c))).
+  induction ls as [|l ls IH]; cbn [alias_lines]; [discriminate|].
+  apply Proofs.TableCmd.bind_np; [apply Proofs.TableCmd.parse_line_np|]. intros o.
+  apply Proofs.TableCmd.bind_np; [exact IH|discriminate].
+Qed.
+Theorem parse_aliases_np pweight text : parse_aliases pweight text <> Panic.
+Proof. unfold parse_aliases. apply Proofs.TableCmd.bind_np; [apply alias_lines_np|discriminate]. Qed.
+Lemma loop_body_is_build pweight build text : loop_body (parse_aliases pweight) build text = build text.
+Proof.
+  unfold loop_body. pose proof (parse_aliases_np pweight text). destruct (parse_aliases pweight text); congruence.
+Qed.
+
+(* what the loop installs: candidates the builder accepted, and nothing else *)
+Lemma installs_are_accepted build h : forall w t,
+  In t (Watch.installs btable (build_opt build) w h) ->
+  In t (candidates build w h) /\ exists bt, build t = Ok bt.
+Proof.
+  induction h as [|e h IH]; intros w t; cbn [Watch.installs candidates]; [intros []|].
+  unfold Watch.step, Watch.step_inst. cbv zeta.
+  destruct (beq _ _) eqn:Eb; cbn [fst].
+  - cbn [app]. intros Hin. apply IH in Hin. exact Hin.
+  - destruct (build_opt build _) as [tb|] eqn:Et; cbn [fst app].
+    + intros [<-|Hin].
+      * split; [now left|]. unfold build_opt in Et. destruct (build _) as [bt| |]; try discriminate. now exists bt.
+      * apply IH in Hin. destruct Hin as [H1 H2]. split; [now right|exact H2].
+    + intros Hin. apply IH in Hin. destruct Hin as [H1 H2]. split; [now right|exact H2].
+Qed.
+
+Lemma loop_emits_accepted build w h Tb : In (Some Tb) (loop_emits build w h) ->
+  exists c, In c (candidates build w h) /\ build c = Ok Tb.
+Proof.
+  unfold loop_emits. intros H. apply in_map_iff in H. destruct H as (c & Hc & Hin).
+  destruct (installs_are_accepted build h w c Hin) as [H1 (bt & Hbt)]. exists c. split; [exact H1|].
+  unfold build_opt in Hc. rewrite Hbt in Hc. inversion Hc; subst. exact Hbt.
+Qed.
+
+(** the system as a whole: the update loop is the writer, any number of readers run beside it in any
+    interleaving.  Every lookup is answered by the start table or by the COMPLETE table the builder
+    returned for ONE candidate text of the history - never by anything else *)
+Theorem system_lookup_single_table (Q C R : Type) (look : btable -> Q -> C -> R)
+        build w h t0 p1 p2 r q c rest :
+  sets_of btable Q C (p1 ++ ALoad r :: p2 ++ ALookup r q c :: rest) = loop_emits build w h ->
+  no_load btable Q C r p2 = true ->
+  exists Tb, (Tb = t0 \/ exists cand, In cand (candidates build w h) /\ build cand = Ok Tb)
+    /\ nth_error (run_cell btable Q C R look t0 (no_locals btable) (p1 ++ ALoad r :: p2 ++ ALookup r q c :: rest))
+                 (count_lookups btable Q C (p1 ++ ALoad r :: p2))
+       = Some (r, q, c, Some (look Tb q c)).
+Proof.
+  intros Hem Hn. destruct (lookup_from_emitted btable Q C R look t0 _ p1 p2 r q c rest Hem Hn) as (Tb & Hor & Hres).
+  exists Tb. split; [|exact Hres]. destruct Hor as [->|Hin]; [now left|right]. now apply loop_emits_accepted.
+Qed.
+
+(* the same with the custom backend as the writer: one SetTable per poll, nil on error *)
+Theorem system_lookup_single_table_custom (Q C R : Type) (look : btable -> Q -> C -> R)
+        cbuild polls t0 p1 p2 r q c rest :
+  sets_of btable Q C (p1 ++ ALoad r :: p2 ++ ALookup r q c :: rest) = map (poll_emit cbuild) polls ->
+  no_load btable Q C r p2 = true ->
+  exists Tb, (Tb = t0 \/ exists ds, In ds polls /\ cbuild ds = Ok Tb)
+    /\ nth_error (run_cell btable Q C R look t0 (no_locals btable) (p1 ++ ALoad r :: p2 ++ ALookup r q c :: rest))
+                 (count_lookups btable Q C (p1 ++ ALoad r :: p2))
+       = Some (r, q, c, Some (look Tb q c)).
+Proof.
+  intros Hem Hn. destruct (lookup_from_emitted btable Q C R look t0 _ p1 p2 r q c rest Hem Hn) as (Tb & Hor & Hres).
+  exists Tb. split; [|exact Hres]. destruct Hor as [->|Hin]; [now left|right].
+  apply in_map_iff in Hin. destruct Hin as (ds & Hd & Hin). exists ds. split; [exact Hin|].
+  unfold poll_emit in Hd. destruct (cbuild ds); congruence.
+Qed.
+(* custom_step is set_table of that emission *)
+Lemma custom_step_emits cbuild cell ds : cbuild ds <> Panic ->
+  custom_step cbuild cell ds = Some (set_table btable cell (poll_emit cbuild ds)).
+Proof. unfold custom_step, poll_emit. destruct (cbuild ds); congruence. Qed.
+
+(* a sequence of polls: the table is that of the last poll NewTableCustom accepted *)
+Fixpoint polls_run (cbuild : list (option def) -> outcome btable) (cell : btable) (polls : list (list (option def)))
+  : option btable :=
+  match polls with
+  | [] => Some cell
+  | ds :: rest => match custom_step cbuild cell ds with
+                  | Some cell' => polls_run cbuild cell' rest
+                  | None => None
+                  end
+  end.
+Fixpoint last_accepted (cbuild : list (option def) -> outcome btable) (cell : btable) (polls : list (list (option def))) : btable :=
+  match polls with
+  | [] => cell
+  | ds :: rest => last_accepted cbuild (match cbuild ds with Ok bt => bt | _ => cell end) rest
+  end.
+Theorem polls_keep_last_good cbuild polls : forall cell,
+  (forall ds, In ds polls -> cbuild ds <> Panic) ->
+  polls_run cbuild cell polls = Some (last_accepted cbuild cell polls).
+Proof.
+  induction polls as [|ds rest IH]; intros cell H; [reflexivity|].
+  cbn [polls_run last_accepted]. unfold custom_step.
+  pose proof (H ds (or_introl eq_refl)) as Hnp.
+  destruct (cbuild ds) as [bt|k|]; [| |congruence]; cbn [set_table]; apply IH; intros d Hd; apply H; now right.
+Qed.
+
+(** the update loop over the whole loop body (ParseAliases, then the composed NewTable) never reaches
+    [Crashed], for every history whose CANDIDATE texts stay within the route-size bound: it is C01's
+    loop over the composed builder *)
+Theorem watch_never_crashes pweight canon glob_ok order : perm_order order ->
+  forall h w,
+    let fb := full_build pweight canon glob_ok (ring_faithful order) in
+    (forall c, In c (candidates (loop_body (parse_aliases pweight) fb) w h) ->
+       forall ds, scan_parse pweight c = Ok ds -> Forall route_ok (reached canon glob_ok [] ds)) ->
+    wrun (loop_body (parse_aliases pweight) fb) (Running w) h
+    = Running (Watch.run btable (build_opt (loop_body (parse_aliases pweight) fb)) w h).
+Proof.
+  intros Hord h w fb Hsz. apply wrun_no_crash. intros c Hc.
+  rewrite loop_body_is_build. exact (proj1 (full_build_total pweight canon glob_ok order Hord c (Hsz c Hc))).
 Qed.
 
 (* the custom backend: an error keeps the table (this is where SetTable's nil guard is relied on),
@@ -1087,4 +1237,30 @@ Proof.
   pose proof (proj1 (full_build_total pweight canon glob_ok order Hord text Hsz)) as Hnp.
   destruct (full_build pweight canon glob_ok (ring_faithful order) text) as [bt|k|] eqn:E; [discriminate| |congruence].
   exists k. split; [reflexivity|]. exact (rejection_reasons pweight canon glob_ok order text k E).
+Qed.
+
+(* ---- Table.LookupHost on a built table never panics ---- *)
+Theorem lookup_host_total hostglob_ok bt host total : bt_good bt -> lookup_host hostglob_ok bt host total <> Panic.
+Proof. intros Hg. unfold lookup_host. now apply look_hosts_np. Qed.
+
+(* ---- non-vacuity of [watch_never_crashes]: its hypothesis holds for a concrete history (the one that
+        killed the process before 290c777) and concrete library answers, and so does its conclusion ---- *)
+Definition fb_body : str -> outcome btable := loop_body (parse_aliases pw_wit) fb_wit.
+Example watch_never_crashes_nonvacuous :
+  (forall c, In c (candidates fb_body (Watch.w_init btable []) crash_history) ->
+     forall ds, scan_parse pw_wit c = Ok ds -> Forall route_ok (reached canon_wit glob_wit [] ds))
+  /\ wrun fb_body (Running (Watch.w_init btable [])) crash_history
+     = Running (Watch.run btable (build_opt fb_body) (Watch.w_init btable []) crash_history).
+Proof.
+  assert (H : forall c, In c (candidates fb_body (Watch.w_init btable []) crash_history) ->
+     forall ds, scan_parse pw_wit c = Ok ds -> Forall route_ok (reached canon_wit glob_wit [] ds)).
+  { assert (E : forallb (fun c => match scan_parse pw_wit c with
+                                  | Ok ds => forallb (fun r => Nat.leb (length (r_targets r)) 1000) (reached canon_wit glob_wit [] ds)
+                                  | _ => true end)
+                        (candidates fb_body (Watch.w_init btable []) crash_history) = true)
+      by (vm_compute; reflexivity).
+    intros c Hc ds Hds. rewrite forallb_forall in E. specialize (E c Hc). rewrite Hds in E.
+    now apply route_ok_forallb. }
+  split; [exact H|].
+  exact (watch_never_crashes pw_wit canon_wit glob_wit stable_order stable_perm crash_history (Watch.w_init btable []) H).
 Qed.
